@@ -1419,7 +1419,7 @@ class Interp:
                 if body is not None and body[0] == 'tuple':
                     scrut = body
             for i, e in enumerate(pat['elems']):
-                comp = scrut[1][i] if scrut[0] == 'tuple' and i < len(scrut[1]) else ('tf', scrut, i)
+                comp = scrut[1][i] if scrut[0] == 'tuple' and i < len(scrut[1]) else self.field(scrut, str(i)) if scrut[0] == 'found' else ('tf', scrut, i)
                 if scrut[0] == 'alt' and pat['k'] == 'PTuple':
                     # `let (a, b) = match x { Some((p, q)) => (Some(p), Some(q)), None => (None, None) }`: each component is the choice of that
                     # component; a choice between Some(..) and None is the Option it spells out
@@ -1640,6 +1640,14 @@ class Interp:
     def field(self, b, name):
         if b[0] == 'struct' and name in b[2]:
             return b[2][name]
+        if b[0] == 'found' and b[1][0] == 'star' and b[1][3][0] in ('tuple', 'struct') and not b[1][5]:
+            # a component of the first selected element of a mapped sequence (`records.first()?.1.size`): that component computed from the first
+            # selected element of the underlying sequence
+            st_ = b[1]
+            inner_ = self.field(st_[3], name)
+            if not (inner_[0] in ('f', 'tf') and inner_[1] == st_[3]):
+                first_ = ('found', ('star', st_[1], st_[2], ('elem', st_[2], st_[1]), st_[4], False), b[2])
+                return self.subst_elem(inner_, st_[2], first_)
         if b[0] == 'elem':
             body = self.elem_body(b)
             if body is not None and body[0] in ('struct', 'tuple', 'alt'):
@@ -2399,6 +2407,19 @@ class Interp:
             self.inline_calls.append((self.frame['callee'], mq, e['line']))
             return self.call_fn(mq, [recv] + args, line=e['line'])
         # side effects on accumulators / collections -----------------------------------------------------------------
+        if m in ('to_tokens',) and len(e['args']) == 1:
+            # `x.to_tokens(tokens)` appends the tokens of x to the stream: tokens.extend(x)
+            tgt = self.expr(e['args'][0], env)
+            if tgt[0] == 'acc' and self.accs[tgt[1]].get('ts'):
+                v = self.tokens_of(self.acc_view(recv), e)
+                self.accs[tgt[1]]['entries'].append({'cond': self.pathcond(), 'val': v, 'loops': list(self.frame['loops']), 'line': e['line'],
+                                                      'fn': self.frame['callee'], 'flat': v[0] in ('star', 'reorder', 'acc')})
+                return ('tuple', [])
+        if m in ('first', 'next') and not e['args'] and recv[0] == 'star' and not recv[5]:
+            # the first element of a selection is what `find` with that selection yields
+            _, src_, eid_, body_, conds_, _ = recv
+            c_ = TRUE if not conds_ else conds_[0] if len(conds_) == 1 else ('and', list(conds_))
+            return ('opt', ('t', ('any', ('star', src_, eid_, ('elem', eid_, src_), [], False), c_)), ('found', recv, eid_))
         if m == 'push' and recv[0] == 'acc':
             v = self.expr(e['args'][0], env)
             self.accs[recv[1]]['entries'].append({'cond': self.pathcond(), 'val': v, 'loops': list(self.frame['loops']), 'line': e['line'],
